@@ -1,7 +1,7 @@
 (* C15 — The layout saved for the systemd service reloads as the same layout.
    Statements only; proofs are in TM.KeyNames (finite facts, vm_compute over
    the regenerated key table) and TM.RoundtripLemmas. *)
-From TM Require Import Base Json RustOps Mapper Parser Convert Serde LoaderCheck StrLemmas KeyNames RoundtripLemmas.
+From TM Require Import Base Json RustOps Mapper Parser Convert Serde LoaderCheck StrLemmas KeyNames RoundtripLemmas LoadedWf.
 From TMGen Require Import KeyTable.
 
 (* Writing a basic layout in the derive(Serialize) form and loading that value
@@ -25,6 +25,18 @@ Example C15_roundtrip_example :
              mkMapping [1]%N [1]%N RDisabled [] ] in
   wf_basic L = true /\ load (to_json L) = Ok L.
 Proof. vm_compute. split; reflexivity. Qed.
+
+(* The guard of C15_roundtrip is what the loader guarantees: every layout that
+   loading (parser + converter) returns, for any JSON value, satisfies wf_basic.
+   Hence a layout obtained from any layout file, saved and reloaded, is
+   unchanged (C15_saved_layout_reloads). *)
+Theorem C15_loaded_is_wf_basic : forall (j : json) (L : layout), load j = Ok L -> wf_basic L = true.
+Proof. exact loaded_is_wf_basic. Qed.
+Print Assumptions C15_loaded_is_wf_basic.
+
+Theorem C15_saved_layout_reloads : forall (j : json) (L : layout), load j = Ok L -> load (to_json L) = Ok L.
+Proof. exact saved_layout_reloads. Qed.
+Print Assumptions C15_saved_layout_reloads.
 
 (* Every key name the tool can write is read back as the same key, for all key
    codes of the regenerated table (484 at the pinned commit): the serde name
